@@ -56,7 +56,8 @@ def check_case(c):
         # ---- LinSolve
         for sparse in (False, True):
             M = sps.csc_matrix(Ar) if sparse else Ar
-            rhss = [("vec", bi), ("block", np.stack([bi, ci, bi - 2 * ci], axis=1))]
+            # every column of a block is its own system, whatever its magnitude (a unit load next to a tiny one)
+            rhss = [("vec", bi), ("block", np.stack([bi, ci, bi - 2 * ci], axis=1)), ("blockscaled", np.stack([bi, 1e-9 * ci], axis=1))]
             if cplxA or not sparse:
                 rhss.append(("cvec", bi + 1j * ci))
             sym, herm = bool(c["cls"]["sym"]), bool(c["cls"]["herm"])
@@ -73,7 +74,7 @@ def check_case(c):
                         x = m.response().sig_out[0].state
                     except Exception as e:
                         return "linsolve/raise", "LinSolve(%s, %s%s) raised %s: %s (A = %s)" % ("sparse" if sparse else "dense", rname, (", %s" % (override if isinstance(override, dict) else "override")) if override else "", type(e).__name__, str(e)[:100], A.tolist())
-                    if not close(x, (adj @ b) / det):
+                    if not (c05.columns_close(x, (adj @ b) / det, 1e-9) if rname == "blockscaled" and np.shape(x) == np.shape(b) else close(x, (adj @ b) / det)):
                         return "linsolve", "LinSolve(%s, %s%s): A x != b (max error %.3g, A = %s)" % ("sparse" if sparse else "dense", rname, (", %s" % (override if isinstance(override, dict) else "override")) if override else "", np.abs(np.asarray(x) - (adj @ b) / det).max(), A.tolist())
         # ---- Inverse
         try:
